@@ -984,6 +984,11 @@ pub fn run(ctx: &Ctx) -> i32 {
     if !miri || ctx.extra.contains_key("miri-stress") {
         stress(ctx, &sh, alpha);
     }
+    // ---- long free-running hammering (completion only): windows of a few instructions, e.g. inside the
+    // policy's atomic accounting, are only met by sheer volume
+    if ctx.prop == "C16" && !miri {
+        hammer(ctx, &sh);
+    }
     let ev = sh.ev.into_inner().unwrap();
     ev.finish()
 }
@@ -1033,6 +1038,113 @@ fn materialise(p: &Program) -> (Program, Setup) {
         .map(|(ci, ops)| ops.iter().enumerate().map(|(oi, c)| unsym(c).map(|a| concrete(a, ci, oi, &su)).unwrap_or_else(|| c.clone())).collect())
         .collect();
     (Program { init: p.init, clients, policy: p.policy }, su)
+}
+
+fn hammer(ctx: &Ctx, sh: &Shared) {
+    let per_thread = ctx.n(15_000, 150_000);
+    for (ci, policy) in [Some(1u64 << 40), None, Some(2000), Some(0)].into_iter().enumerate() {
+        let timer = VirtualTimer::new(100);
+        let inner = Arc::new(MemoryStore::new(timer.clone()));
+        let (pol, top): (Option<Arc<RandomPolicy>>, Arc<dyn Cache + Send + Sync>) = match policy {
+            None => (None, inner.clone()),
+            Some(l) => {
+                let p = Arc::new(RandomPolicy::new(inner.clone(), l));
+                (Some(p.clone()), p)
+            }
+        };
+        let stack = Stack::with_top(timer.clone(), inner, pol, top);
+        let nthreads = 8usize;
+        let progress: Arc<Vec<AtomicU64>> = Arc::new((0..nthreads).map(|_| AtomicU64::new(0)).collect());
+        let tids: Arc<Mutex<Vec<i32>>> = Arc::new(Mutex::new(vec![]));
+        let done = Arc::new(AtomicU64::new(0));
+        let mut hs = vec![];
+        for t in 0..nthreads {
+            let (memc, progress, tids, done) = (stack.memc.clone(), progress.clone(), tids.clone(), done.clone());
+            let seed = ctx.case_seed("hammer", (ci * 100 + t) as u64);
+            let timer = timer.clone();
+            hs.push(std::thread::spawn(move || {
+                tids.lock().unwrap().push(gate::gettid());
+                let mut rng = SmallRng::seed_from_u64(seed);
+                let mut conn = Conn::new(memc, 1 << 20);
+                let keys: Vec<Vec<u8>> = (0..4).map(|i| format!("h{}", i).into_bytes()).collect();
+                for i in 0..per_thread {
+                    let k = &keys[rng.gen_range(0..keys.len())];
+                    let f = match rng.gen_range(0..20) {
+                        0..=5 => wire::store(op::SET, k, b"12", 0, if rng.gen_bool(0.1) { 1 } else { 0 }, i as u32, 0),
+                        6..=9 => wire::delete(op::DELETE, k, i as u32, 0),
+                        10..=12 => wire::get(op::GET, k, i as u32),
+                        13 | 14 => wire::counter(op::INCR, k, 1, 5, 0, i as u32, 0),
+                        15 => wire::concat(op::APPEND, k, b"1", i as u32, 0),
+                        16 => wire::store(op::ADD, k, b"7", 0, 0, i as u32, 0),
+                        17 => wire::store(op::REPLACE, k, b"8", 0, 0, i as u32, 0),
+                        18 => {
+                            if rng.gen_bool(0.02) {
+                                timer.advance(1);
+                            }
+                            wire::get(op::GETK, k, i as u32)
+                        }
+                        _ => {
+                            if rng.gen_bool(0.05) {
+                                wire::flush(op::FLUSH, if rng.gen_bool(0.5) { None } else { Some(2) }, i as u32)
+                            } else {
+                                wire::simple(op::NOOP, i as u32)
+                            }
+                        }
+                    };
+                    let _ = conn.feed(&f.encode());
+                    progress[t].fetch_add(1, Ordering::Relaxed);
+                }
+                done.fetch_add(1, Ordering::SeqCst);
+            }));
+        }
+        let total = |p: &Vec<AtomicU64>| p.iter().map(|x| x.load(Ordering::Relaxed)).sum::<u64>();
+        let mut last = (0u64, Instant::now());
+        let t0 = Instant::now();
+        loop {
+            if done.load(Ordering::SeqCst) as usize == nthreads {
+                break;
+            }
+            std::thread::sleep(Duration::from_millis(100));
+            let now = total(&progress);
+            if now != last.0 {
+                last = (now, Instant::now());
+            }
+            // some threads may be stuck while others still run: look at each thread's own counter
+            let stuck = last.1.elapsed() > Duration::from_secs(8) || t0.elapsed() > Duration::from_secs(600);
+            let per: Vec<u64> = progress.iter().map(|x| x.load(Ordering::Relaxed)).collect();
+            if stuck || (t0.elapsed() > Duration::from_secs(20) && per.iter().any(|p| *p == 0)) {
+                let t = tids.lock().unwrap().clone();
+                let pr = progress.clone();
+                let v = gate::classify_stall(&t, &move || pr.iter().map(|x| x.load(Ordering::Relaxed)).sum::<u64>(), 15);
+                let (sig, msg) = match v {
+                    Stall::Deadlock(m) => ("deadlock", m),
+                    Stall::Livelock(m) => ("livelock", m),
+                    Stall::Slow => {
+                        if t0.elapsed() > Duration::from_secs(600) {
+                            sh.ev.lock().unwrap().inconclusive.push("hammer phase did not finish in 10 min but was making progress".into());
+                            return;
+                        }
+                        continue;
+                    }
+                };
+                let mut e = sh.ev.lock().unwrap();
+                e.violation(
+                    Viol::new(&["C16"], sig, format!("hammering 4 keys with 8 threads (policy {:?}): commands stopped returning after {:?} operations per thread: {}", policy, per, msg)),
+                    json!({"engine":"lin-hammer","policy":format!("{:?}",policy),"operations_completed_per_thread":per}),
+                );
+                let ev = std::mem::replace(&mut *e, Evidence::new(ctx, "exploration", ""));
+                std::process::exit(ev.finish());
+            }
+        }
+        for h in hs {
+            let _ = h.join();
+        }
+        let mut e = sh.ev.lock().unwrap();
+        e.evaluations += 1;
+        e.count("hammer:operations", total(&progress));
+        e.count(&format!("hammer:phase_completed:policy={:?}", policy), 1);
+        e.nontrivial.insert(fnv(format!("hammer:{:?}", policy).as_bytes()));
+    }
 }
 
 // ---------------------------------------------------------------------------
